@@ -602,6 +602,82 @@ def trsm_rule(rep, wd):
     return n
 
 
+# -----------------------------------------------------------------------------------------------------------------
+# R13.conj: the in-place wrapper gemm(ctx, alpha, a, b, beta, c) with a conjugated output forwards to the fully conjugated problem:
+#   conj(c') := alpha a b + beta conj(c')   <=>   c' := conj(alpha) conj(a) conj(b) + conj(beta) c'
+WRAP_DRIVER = r"""
+#include <boost/multi/adaptors/blas/gemm.hpp>
+#include <complex>
+namespace multi = boost::multi;
+using cplx = std::complex<double>;
+struct Ctx { void gemm(char ta, char tb, long m, long n, long k, cplx const* alpha, cplx const* a, long lda, cplx const* b, long ldb, cplx const* beta, cplx* c, long ldc); };
+static inline auto mk0() { return multi::layout_t<0>{multi::monostate{}, multi::monostate{}, 0, 1}; }
+static inline auto mk1(long s0, long o0, long n0) { return multi::layout_t<1>{mk0(), s0, o0, n0}; }
+static inline auto mk2(long s0, long o0, long n0, long s1, long o1, long n1) { return multi::layout_t<2>{mk1(s1, o1, n1), s0, o0, n0}; }
+#define WP Ctx* ctx, cplx* ab, long a0, long a1, long M, long K, cplx* bb, long b0, long b1, long N, cplx* cb, long c0, long c1, double ar, double ai, double br, double bi
+#define WOPS multi::subarray<cplx, 2> a(mk2(a0, 0, M*a0, a1, 0, K*a1), ab), b(mk2(b0, 0, K*b0, b1, 0, N*b1), bb), c(mk2(c0, 0, M*c0, c1, 0, N*c1), cb)
+extern "C" void w_plain(WP) { WOPS; multi::blas::gemm(ctx, cplx{ar, ai}, a, b, cplx{br, bi}, c); }
+extern "C" void w_conjc(WP) { WOPS; multi::blas::gemm(ctx, cplx{ar, ai}, a, b, cplx{br, bi}, multi::blas::conj(c)); }
+"""
+
+
+def wrapper_rule(rep, wd):
+    src = os.path.join(wd, "wrap.cpp")
+    with open(src, "w") as fh:
+        fh.write(WRAP_DRIVER)
+    text = irval.emit_ir(src, src[:-4] + ".ll", defines=("-UNDEBUG", "-fno-vectorize", "-fno-slp-vectorize", "-mllvm", "-inline-threshold=1000000"))
+    funcs, structs = irval.parse_module(text)
+    ev = irval.Evaluator(funcs, structs)
+    ev.record_external = lambda c: c.startswith("_ZN3Ctx")
+    rep.units.add("wrap.cpp")
+    M, N, K = 2 + A("mx"), 2 + A("nx"), 2 + A("kx")
+    n = 0
+    fl = lambda nm: irval.atom("float", nm)
+    neg = lambda x: irval.atom("fneg", x)
+    # layouts accepted by the respective gemm_n variant: plain = all row-major; conjugated output = conj(a), conj(b) column-major, c row-major
+    cases = {"w_plain": ({"a0": K + A("ap"), "a1": P.const(1), "b0": N + A("bp"), "b1": P.const(1), "c0": N + A("cp"), "c1": P.const(1)}, False),
+             "w_conjc": ({"a0": P.const(1), "a1": M + A("ap"), "b0": P.const(1), "b1": K + A("bp"), "c0": N + A("cp"), "c1": P.const(1)}, True)}
+    for fn, (env, conj) in sorted(cases.items()):
+        signs = {"ab": POS, "bb": POS, "cb": POS, "ctx": POS, "mx": NONNEG, "nx": NONNEG, "kx": NONNEG, "ap": NONNEG, "bp": NONNEG, "cp": NONNEG}
+        args = [A("ctx"), A("ab"), env["a0"], env["a1"], M, K, A("bb"), env["b0"], env["b1"], N, A("cb"), env["c0"], env["c1"], fl("ar"), fl("ai"), fl("br"), fl("bi")]
+        key = "R13.conj:%s" % ("gemm(alpha, a, b, beta, conj(c))" if conj else "gemm(alpha, a, b, beta, c)")
+        n += 1
+        try:
+            ev.run(fn, args, signs)
+            calls = list(ev.extcalls)
+        except irval.AssertFires as e:
+            rep.inconclusive(key, "R13.conj", "the wrapper rejects the layout chosen for this rule: %s" % e)
+            continue
+        except irval.Inconclusive as e:
+            rep.inconclusive(key, "R13.conj", str(e))
+            continue
+        if len(calls) != 1:
+            rep.violated(key, "R13.conj", "%d xGEMM calls" % len(calls), dict())
+            continue
+        vals, der, stk = calls[0][1], calls[0][2], calls[0][3]
+
+        def cval(ptr):
+            return (stk.get(ptr), stk.get(ptr + 8))
+        al, be = cval(vals[6]), cval(vals[11])
+        want_al = (fl("ar"), neg(fl("ai")) if conj else fl("ai"))
+        want_be = (fl("br"), neg(fl("bi")) if conj else fl("bi"))
+        ta, tb = int(vals[1].const_value()), int(vals[2].const_value())
+        bad = []
+        if al != want_al:
+            bad.append("alpha' = %r, expected %salpha" % (al, "conj " if conj else ""))
+        if be != want_be:
+            bad.append("beta' = %r, expected %sbeta" % (be, "conj " if conj else ""))
+        if conj and not (ta == 67 and tb == 67):
+            bad.append("flags ('%s','%s'), expected both operands conjugated" % (chr(ta), chr(tb)))
+        if not conj and (ta == 67 or tb == 67):
+            bad.append("flags ('%s','%s') conjugate an operand of the plain product" % (chr(ta), chr(tb)))
+        if bad:
+            rep.violated(key, "R13.conj", "%s: the forwarded problem is not the (conjugated) original: %s" % (key[9:], "; ".join(bad)), dict(problems=bad))
+        else:
+            rep.ok(key, "R13.conj", None)
+    return n
+
+
 def run(tier):
     rep = common.Report("C13", tier, "other",
                         "one obligation per (dispatcher variant, size case, layout case of each operand): the BLAS call issued on that case denotes the product, "
@@ -748,6 +824,8 @@ def run(tier):
                         rep.ok(key, "B13.gemv", None)
                     else:
                         rep.violated(key, "B13.gemv", "the xGEMV call issued for %s is not the product: %s" % (case, "; ".join(why)[:300]), dict(case=case, reason=why))
+    nw = wrapper_rule(rep, wd)
+    rep.need_instances("R13.conj wrapper cases", nw, 2)
     ntr = trsm_rule(rep, wd)
     rep.need_instances("B13.trsm cases", ntr, 48)
     nl1 = level1(rep, wd)
